@@ -18,7 +18,9 @@ RULE = ('Generated sessions (3-6 symbols with hash-diverse names, dense markets 
         'universe-driven, top-N momentum (the shipped example model), SMA trend, inverse volatility; every rebalance '
         'kind, both sizers) are run (a) twice in one process, (b) with a data-source object that already served a '
         'different session and after a session on another market in the same process (warm memoised quotes), and (c) '
-        'in persistent fresh interpreters started with PYTHONHASHSEED 1, 2, 3 (thorough: 1-4 and a VERIF_SEED-derived '
+        'in persistent interpreters started with PYTHONHASHSEED 1, 2, 3 (thorough: 1-4 and a VERIF_SEED-derived one), '
+        'each of which first runs a session differing from the case in one parameter group (schedule / money and '
+        'sizing / alpha) - '
         'one) against the in-process run under hash seed 0. Oracle: the digest - history events (fills without order '
         'ids), equity curve and recorded target allocations incl. column order, all by repr - must be identical '
         'everywhere. Non-trivial = >= 3 assets and >= 1 rebalance producing >= 2 fills; the same-instant-entry / tie '
